@@ -155,6 +155,25 @@ def _store_rules(report, repo, rule, qual, store_pred, cache_pred, cache_rule,
                  'a non-raising path returns without storing the assigned '
                  'value: an assignment can be silently dropped')
   caches = [n for n in g.nodes if cache_pred(n)]
+  if do_cache and stores and caches and qual == 'MeasuredValue.set':
+    # paired write: no path stores the value without refreshing the cache
+    no_exc = lambda a, l, b: l == 'exc'
+    is_cache = lambda n: any(n is c for c in caches)
+    pre = [g.entry] + g.reach([g.entry], avoid=is_cache, avoid_edge=no_exc)
+    bad = False
+    for st in stores:
+      if any(st is x for x in pre):
+        post = g.reach([st], avoid=is_cache, avoid_edge=no_exc)
+        if any(x is g.exit for x in post):
+          bad = True
+    report.check(not bad, cache_rule, f.qualname, 'store-without-cache',
+                 stores[0].ast,
+                 'every path that stores a value also refreshes its cached '
+                 'base-type rendering',
+                 'a path stores the new value but keeps the cached rendering '
+                 'of the previous one (e.g. the cache is only refreshed when '
+                 'value != stored_value: 1 then True, 2 then 2.0 show the old '
+                 'rendering)')
   for c in (caches if do_cache else []):
     ok = all(g.dominated_by(c, lambda n, _t=t: n is _t) for t in ttests) and \
         bool(ttests)
@@ -450,8 +469,7 @@ def r6_conditional_validators(report, repo):
                'every conditional validator is considered')
 
 
-def r7_measurements_pass(report, repo):
-  rule = 'C06-R7'
+def r7_measurements_pass(report, repo, rule='C06-R7'):
   report.rule(rule, 'T-DTABLE: _measurements_pass allows exactly {PASS} plus '
               'UNSET iff CONF.allow_unset_measurements; _measurements_marginal '
               'is any(marginal)')
